@@ -590,10 +590,24 @@ impl HandlerRunner {
             .map(|((n, r), l)| (*n, *r, l.last_emit.unwrap_or(l.sent_at).max(l.sent_at), l.to))
             .chain(self.ledger.internal.iter().filter(|(_, v)| !v.2).map(|((n, r), v)| (*n, *r, v.0, v.1)))
             .collect();
+        let mut refills = 0;
         loop {
             let ev = match self.nodes[ni].from_handler.try_recv() {
                 Ok(e) => e,
-                Err(_) => break,
+                Err(_) => {
+                    // the channel to the service is bounded: a handler with more to report than it holds
+                    // is waiting for room.  Let it run on and come back for the rest.
+                    if refills < 64 {
+                        refills += 1;
+                        self.settle();
+                        match self.nodes[ni].from_handler.try_recv() {
+                            Ok(e) => e,
+                            Err(_) => break,
+                        }
+                    } else {
+                        break;
+                    }
+                }
             };
             match ev {
                 HandlerOut::Established(enr, addr, dir) => {
@@ -1601,8 +1615,12 @@ impl HandlerRunner {
                 if let Some(tm) = &term {
                     if let Some(i) = tm.find("resp/") {
                         if let Some(r) = tm[i + 5..].split('/').next().and_then(|x| x.parse::<u64>().ok()) {
+                            // (an answer of another kind than NODES leaves the handler's own request waiting)
+                            let is_nodes = tm[i..].starts_with(&format!("resp/{}/nodes", r));
                             if let Some(v) = self.ledger.internal.get_mut(&(tidx, r)) {
-                                v.2 = true;
+                                if is_nodes {
+                                    v.2 = true;
+                                }
                             }
                         }
                     }
